@@ -2,8 +2,30 @@
 from . import sigs
 
 
+def fixed_cases():
+    """renames onto the same name (what the optimiser makes of a rename and its reversal; the one way to move a table or
+    a column without renaming the model or field), alone and followed by another mutation"""
+    def fld(name, t, related=None, **attrs):
+        return {'name': name, 'type': t, 'attrs': attrs, 'related': related}
+    spec = {'apps': [{'id': 'vapp', 'models': [
+        {'name': 'Alpha', 'table': 'vapp_alpha', 'unique_together': [['a', 'b']], 'index_together': [], 'indexes': [],
+         'constraints': [], 'fields': [fld('id', 'AutoField', primary_key=True), fld('a', 'IntegerField'),
+                                       fld('b', 'CharField', max_length=10, null=True)]},
+        {'name': 'Beta', 'table': 'vapp_beta', 'unique_together': [], 'index_together': [], 'indexes': [],
+         'constraints': [], 'fields': [fld('id', 'AutoField', primary_key=True),
+                                       fld('ref', 'ForeignKey', 'vapp.Alpha', null=True)]}]}]}
+    rf = {'t': 'RenameField', 'model': 'Alpha', 'old': 'b', 'new': 'b', 'db_column': 'b_col', 'db_table': None}
+    rm = {'t': 'RenameModel', 'old': 'Alpha', 'new': 'Alpha', 'db_table': 'vapp_alphas'}
+    df = {'t': 'DeleteField', 'model': 'Alpha', 'field': 'a'}
+    out = []
+    for muts in ([rf], [rm], [rf, df], [rm, df], [rf, rm, rf]):
+        sig = sigs.sig_from_spec(spec)
+        out.append((spec, sig, muts, True))
+    return out
+
+
 def gen_cases(ctx, n, max_len=5, kinds=None, with_invalid=True):
-    cases = []
+    cases = fixed_cases() if kinds is None else []
     for _ in range(n):
         spec = sigs.gen_spec(ctx.rng)
         sig = sigs.sig_from_spec(spec)
